@@ -305,6 +305,11 @@ class AstTr:
                 raise Untranslatable("where cond")
             a, b = self.sc(n.args[1]), self.sc(n.args[2])
             return S, f"(Expr.sel (fun env => {cc}) {a[1]} {b[1]})"
+        if fn == "jnp.logical_not" and len(n.args) == 1 and not n.keywords:
+            a = self.e(n.args[0])
+            if a[0] != B:
+                raise Untranslatable("logical_not")
+            return B, f"(!{a[1]})"
         if fn == "jnp.logical_and":
             a, b = self.e(n.args[0]), self.e(n.args[1])
             if a[0] != B or b[0] != B:
@@ -337,6 +342,10 @@ class AstTr:
             return self.config_call(n, self.cfg_fns[fn[5:]])
         if fn in self.calls:
             return self.user_call(n, fn)
+        import inline
+        ex = inline.expand_call(n, getattr(self, "helpers", {}))
+        if ex is not None:
+            return self.e(ex)
         raise Untranslatable(f"call {fn} ({self.name})")
 
     def config_call(self, n, bound):
@@ -546,6 +555,8 @@ def generate_ast(repo, specs, header=None, id_base=0) -> dict:
             ids = StructIds(sp["fields"]) if sp.get("fields") is not None else None
             tr = AstTr(sp["name"], ids, sp.get("calls", {}), (id_base + k + 1) * 1000, init_mode=False,
                        field_params=sp.get("field_params"), ignore_args=sp.get("ignore_args", ()))
+            import inline
+            tr.helpers = inline.helpers_of(ast.parse(src), sp["path"].split(".")[0] if "." in sp["path"] else None)
             tr.dim = sp.get("dim")
             tr.vec_field_params = tuple(sp.get("vec_field_params", ()))
             tr.vec_mode = bool(tr.dim or sp.get("vec_args") or tr.vec_field_params)
